@@ -292,6 +292,42 @@ def seq_rules(facts, rep):
     return ok
 
 
+def _char_consts(facts, f):
+    """character constants a function (its closures and inlined helpers) compares its input with"""
+    out = set()
+    for g in [f] + facts.closures_of(f):
+        for b, si2, s2 in g.stmts():
+            if s2["k"] == "assign" and s2["rv"]["k"] == "binop" and s2["rv"]["op"] in ("Eq", "Ne"):
+                for o in (s2["rv"]["a"], s2["rv"]["b"]):
+                    if o["k"] == "const" and o.get("ty") == "char" and o.get("v") is not None:
+                        out.add(int(o["v"]))
+        for b, t2 in g.calls():
+            for a in t2["args"]:
+                if a["k"] == "const" and a.get("ty") == "char" and a.get("v") is not None:
+                    out.add(int(a["v"]))
+        for b in range(len(g.blocks)):
+            t2 = g.term(b)
+            if t2 and t2["k"] == "switch" and t2.get("dty") == "char":
+                out |= {int(v) for v, _ in t2["targets"]}
+    return out
+
+
+def accessor_sibling_rules(facts, rep, rule="C10-SEQ"):
+    """the metadata the two readers hand out answers derived questions the same way: `is_dir()` of the seekable reader's ZipFile and of
+    the streaming reader's metadata both treat a trailing '/' or '\\' as a directory (is_file() is its negation in both)"""
+    ok = True
+    a = facts.one(r"^read::ZipFile::<'a>::is_dir$")
+    b = facts.one(r"^read::stream::ZipStreamFileMetadata::is_dir$")
+    ca, cb = _char_consts(facts, a), _char_consts(facts, b)
+    ok &= rep.check(ca == cb == {47, 92}, rule, "sibling:is_dir", where(b, b.span), "both is_dir() accessors test '/' and '\\'",
+                    "ZipFile::is_dir tests %s, ZipStreamFileMetadata::is_dir tests %s: the two readers disagree on which entries are directories" % (sorted(map(chr, ca)), sorted(map(chr, cb))))
+    for nm, pat in (("ZipFile", r"^read::ZipFile::<'a>::is_file$"), ("ZipStreamFileMetadata", r"^read::stream::ZipStreamFileMetadata::is_file$")):
+        g = facts.one(pat)
+        calls = [t["callee"].split("::")[-1] for _, t in g.calls()]
+        ok &= rep.check(calls == ["is_dir"], rule, "is_file=!is_dir:%s" % nm, where(g, g.span), "is_file() is !is_dir()", "%s::is_file calls %s" % (nm, calls))
+    return ok
+
+
 def extra_tolerance_rules(facts, rep, rule="C10-EXTRA"):
     """Both parsers treat a failing extra-field parse the same way: an I/O error (a truncated or padded extra area, as zipalign
     leaves behind) is tolerated and the record is still delivered; any other error is returned.  If only one of them gave up on
@@ -350,6 +386,7 @@ def run(ctx, rep):
     refuse_rules(facts, rep)
     drain_rules(facts, rep)
     seq_rules(facts, rep)
+    accessor_sibling_rules(facts, rep)
     extra_tolerance_rules(facts, rep)
     from rules.shared_zip64 import pair_rules
     pair_rules(ctx, facts, rep, rule="C10-Z64", side="read")      # a streamed large_file entry's window is the ZIP64 compressed size, read in APPNOTE order
